@@ -281,7 +281,16 @@ func (params *GossipSubParams) validate() error {
 func NewGossipSub(ctx context.Context, h host.Host, opts ...Option) (*PubSub, error) {
 	rt := DefaultGossipSubRouter(h)
 	opts = append(opts, WithRawTracer(rt.tagTracer))
-	return NewGossipSubWithRouter(ctx, h, rt, opts...)
+	ps, err := NewGossipSubWithRouter(ctx, h, rt, opts...)
+	if err != nil {
+		// the router was never attached, so nothing else will stop the
+		// address book's background goroutine
+		if cabCloser, ok := rt.cab.(io.Closer); ok {
+			cabCloser.Close()
+		}
+		return nil, err
+	}
+	return ps, nil
 }
 
 // NewGossipSubWithRouter returns a new PubSub object using the given router.
